@@ -16,6 +16,9 @@
 (*   vw    vkey witnesses       <<key, sigValid>>                           *)
 (*   bw    bootstrap witnesses  <<key, variant, sigValid>>                  *)
 (*   p2    the transaction is flagged is_valid = FALSE (phase-2 invalid)    *)
+(*   dup   how often an element is LISTED: on the wire the witness "sets"   *)
+(*         and the required signers are lists, and nothing removes a        *)
+(*         repetition; dup names the repeated elements with their count     *)
 (* A lock is <<"key", k>> (payment key hash of k), <<"byron", k>> (Byron    *)
 (* address with root Root(k, 0)) or <<"script", 0>>.                        *)
 EXTENDS Naturals, FiniteSets, FiniteSetsExt, Sequences, SequencesExt, Json, TLC
@@ -25,7 +28,12 @@ CONSTANTS MaxIn,    \* 1..MaxIn spent outputs
           MaxReq,   \* 0..MaxReq required signers
           MaxVW,    \* 0..MaxVW vkey witnesses
           MaxBW,    \* 0..MaxBW bootstrap witnesses
-          FlagSlice \* which cases also exist flagged is_valid = FALSE: "axes" | "full" (below)
+          FlagSlice, \* which cases also exist flagged is_valid = FALSE: "axes" | "full" (below)
+          MultIn,   \* the multiplicity slice: 1..MultIn spent outputs,
+          MultColl, \*   0..MultColl collateral outputs,
+          MultReq,  \*   0..MultReq required signers,
+          MultTotal, \*   at most MultTotal of these together,
+          MaxMult   \*   a repeated element is listed 2..MaxMult times
 
 K      == {1, 2, 3}        \* key universe
 Owners == {1, 2}           \* keys that own outputs; key 3 is a stranger
@@ -77,7 +85,7 @@ FlagEras == {"alonzo", "babbage", "conway", "dijkstra"}
 \* lock kind occur in both.
 FlagWits == IF FlagSlice = "full" THEN AllWits
             ELSE {<<v, {}>> : v \in VWSets} \cup {<<{}, b>> : b \in BWSets}
-FlagsOfOrdered == IF FlagSlice = "full" THEN BOOLEAN ELSE {FALSE}
+FlagsOfSlices == IF FlagSlice = "full" THEN BOOLEAN ELSE {FALSE}   \* the ordered slice
 ASSUME FlagSlice \in {"axes", "full"}
 ASSUME FlagWits \subseteq AllWits     \* a flagged case always has its unflagged twin
 
@@ -137,22 +145,84 @@ Silent(c) == \E l \in c.coll : l[1] = "byron"
 \* function of the set (OrderIrrelevant below), so an implementation that
 \* stops looking after some input disagrees with the specification on one of
 \* the orders.
+NoDup == [vw |-> {}, bw |-> {}, req |-> {}]     \* every element listed once (see Multiplicity below)
 Orders == UNION {SetToSeqs(S) : S \in UpTo(Locks, 2, 3)}
 RangeOf(o) == {o[i] : i \in 1..Len(o)}
 OwnVW(S) == {<<l[2], TRUE>> : l \in {x \in S : x[1] = "key"}}
 OwnBW(S) == {<<l[2], 0, TRUE>> : l \in {x \in S : x[1] = "byron"}}
-OrderedCases == UNION {{[ins |-> RangeOf(o), coll |-> {}, req |-> {}, vw |-> v, bw |-> b, ord |-> o, p2 |-> f] :
-                          v \in SUBSET OwnVW(RangeOf(o)), b \in SUBSET OwnBW(RangeOf(o)), f \in FlagsOfOrdered} : o \in Orders}
+OrderedCases == UNION {{[ins |-> RangeOf(o), coll |-> {}, req |-> {}, vw |-> v, bw |-> b, ord |-> o, p2 |-> f, dup |-> NoDup] :
+                          v \in SUBSET OwnVW(RangeOf(o)), b \in SUBSET OwnBW(RangeOf(o)), f \in FlagsOfSlices} : o \in Orders}
 
-VARIABLES c, done
+----------------------------------------------------------------------------
+(* Multiplicity.  The vkey witnesses, the bootstrap witnesses and the       *)
+(* required signers are sets in the ledger's eyes and lists on the wire: a  *)
+(* transaction may list the same witness, or the same required signer,      *)
+(* several times (the library decodes what is listed).  The rule above      *)
+(* speaks about SETS: an owner / a required signer is witnessed when its    *)
+(* key is among the keys that are listed, however often; a witness listed   *)
+(* five times stands for one key, never for five obligations.  Accept does  *)
+(* not read dup (MultiplicityIrrelevant).                                   *)
+(*                                                                          *)
+(* The "mult" slice: 1..MultIn inputs, 0..MultColl collateral outputs and   *)
+(* 0..MultReq required signers -- two and more DISTINCT obligations of one  *)
+(* kind, which the base slice does not have --, every subset of the valid   *)
+(* witnesses the obligations call for, and in each of the three lists at    *)
+(* most one element listed 2..MaxMult times.  (The cases that are base      *)
+(* cases are left to the base slice; the slice is not flagged: p2 = FALSE.) *)
+\* no element repeated, or one element of S listed n times: {<<element, n>>}
+OneOf(S) == {{}} \cup {{<<x, n>>} : x \in S, n \in 2..MaxMult}
+Dups(v, b, r) == {[vw |-> dv, bw |-> db, req |-> dr] : dv \in OneOf(v), db \in OneOf(b), dr \in OneOf(r)}
+
+KeysOf(S, kind) == {l[2] : l \in {x \in S : x[1] = kind}}
+OwnedLocks == Locks \ {ScriptLock}     \* (a script lock puts no witness on the lists)
+MultObl == {o \in UpTo(OwnedLocks, 1, MultIn) \X UpTo(OwnedLocks, 0, MultColl) \X UpTo(K, 0, MultReq) :
+                Cardinality(o[1]) + Cardinality(o[2]) + Cardinality(o[3]) <= MultTotal}
+MultOf(i, co, r) ==
+    UNION {{[ins |-> i, coll |-> co, req |-> r, vw |-> v, bw |-> b, ord |-> <<>>, p2 |-> FALSE, dup |-> d] : d \in Dups(v, b, r)} :
+              v \in SUBSET {<<k, TRUE>> : k \in KeysOf(i \cup co, "key") \cup r},
+              b \in SUBSET {<<k, 0, TRUE>> : k \in KeysOf(i \cup co, "byron")}}
+IsBase(x) == /\ x.dup = NoDup /\ x.ord = <<>>
+             /\ x.ins \in InsSets /\ x.coll \in CollSets /\ x.req \in ReqSets
+             /\ <<x.vw, x.bw>> \in (IF x.p2 THEN FlagWits ELSE AllWits)
+MultCases == {x \in UNION {MultOf(o[1], o[2], o[3]) : o \in MultObl} : ~IsBase(x)}
+
+\* how often things are listed
+Times(D, x)  == IF \E d \in D : d[1] = x THEN (CHOOSE d \in D : d[1] = x)[2] ELSE 1
+\* listed vkey witnesses (with repetitions) of the keys in S; listed required signers
+Listed(x, S) == MapThenSumSet(LAMBDA w : Times(x.dup.vw, w), {w \in x.vw : w[1] \in S})
+ReqListed(x) == MapThenSumSet(LAMBDA k : Times(x.dup.req, k), x.req)
+
+(* Two ways of getting it wrong, as named definitions (never the oracle):    *)
+(* counting listed witnesses against the number of required signers -- a    *)
+(* witness listed twice pays for a signer who never signed --, and asking    *)
+(* for one listed witness per LISTED required signer -- a signer listed      *)
+(* twice needs two witnesses.  The slice tells both from the rule (ASSUMEs). *)
+AcceptCountingWitnesses(x) ==
+    /\ AllSigsValid(x) /\ (\A l \in x.ins : InputOk(x, l)) /\ (\A m \in x.coll : CollOk(x, m))
+    /\ Listed(x, x.req) >= Cardinality(x.req)
+AcceptPerListedSigner(x) ==
+    /\ AllSigsValid(x) /\ (\A l \in x.ins : InputOk(x, l)) /\ (\A m \in x.coll : CollOk(x, m))
+    /\ Listed(x, x.req) >= ReqListed(x)
+ASSUME \E x \in MultCases : ~Accept(x) /\ AcceptCountingWitnesses(x)
+ASSUME \E x \in MultCases : Accept(x) /\ ~AcceptPerListedSigner(x)
+ASSUME MaxMult >= 2 /\ MultReq >= 2 /\ MultTotal >= 3
+
+\* sl: the slice an obligation belongs to (an obligation of the multiplicity
+\* slice may look like one of the base slice)
+VARIABLES c, done, sl
 Init == /\ done = FALSE
-        /\ \/ \E i \in InsSets, co \in CollSets, r \in ReqSets, f \in BOOLEAN :
-                 c = [ins |-> i, coll |-> co, req |-> r, vw |-> {}, bw |-> {}, ord |-> <<>>, p2 |-> f]
-           \/ \E o \in Orders, f \in FlagsOfOrdered :
-                 c = [ins |-> RangeOf(o), coll |-> {}, req |-> {}, vw |-> {}, bw |-> {}, ord |-> o, p2 |-> f]
+        /\ \/ sl = "mult" /\ \E o \in MultObl :
+                 c = [ins |-> o[1], coll |-> o[2], req |-> o[3], vw |-> {}, bw |-> {}, ord |-> <<>>, p2 |-> FALSE, dup |-> NoDup]
+           \/ sl = "base" /\ \E i \in InsSets, co \in CollSets, r \in ReqSets, f \in BOOLEAN :
+                 c = [ins |-> i, coll |-> co, req |-> r, vw |-> {}, bw |-> {}, ord |-> <<>>, p2 |-> f, dup |-> NoDup]
+           \/ sl = "ordered" /\ \E o \in Orders, f \in FlagsOfSlices :
+                 c = [ins |-> RangeOf(o), coll |-> {}, req |-> {}, vw |-> {}, bw |-> {}, ord |-> o, p2 |-> f, dup |-> NoDup]
 Next == /\ ~done
         /\ done' = TRUE
-        /\ IF c.ord = <<>>
+        /\ UNCHANGED sl
+        /\ IF sl = "mult"
+           THEN \E x \in MultOf(c.ins, c.coll, c.req) : ~IsBase(x) /\ c' = x
+           ELSE IF sl = "base"
            THEN \E w \in (IF c.p2 THEN FlagWits ELSE AllWits) : c' = [c EXCEPT !.vw = w[1], !.bw = w[2]]
            ELSE \E v \in SUBSET OwnVW(c.ins), b \in SUBSET OwnBW(c.ins) : c' = [c EXCEPT !.vw = v, !.bw = b]
 
@@ -231,16 +301,37 @@ FlagIrrelevant == done =>
     /\ Silent(twin) = Silent(c)
     /\ (c.p2 /\ c.ord = <<>>) => (<<c.vw, c.bw>> \in FlagWits /\ <<c.vw, c.bw>> \in AllWits)
 
+\* the verdict is a function of the SETS: however often a witness or a
+\* required signer is listed, the case has the verdict, the reasons and the
+\* silence of the case that lists everything once ...
+MultiplicityIrrelevant == done =>
+    LET once == [c EXCEPT !.dup = NoDup] IN
+    /\ Accept(once) = Accept(c)
+    /\ Why(once) = Why(c)
+    /\ Silent(once) = Silent(c)
+    \* ... and a key that is not among the listed witnesses' keys is not made up
+    \* for by listing other witnesses more often
+    /\ \A k \in c.req : (~\E w \in c.vw : w[1] = k) => ~Accept(c)
+    /\ \A l \in (c.ins \cup c.coll) : (l[1] = "key" /\ ~\E w \in c.vw : w[1] = l[2]) => ~Accept(c)
+    \* dup names listed elements only
+    /\ {d[1] : d \in c.dup.vw} \subseteq c.vw /\ {d[1] : d \in c.dup.bw} \subseteq c.bw
+    /\ {d[1] : d \in c.dup.req} \subseteq c.req
+
 BaseObl     == Cardinality(InsSets) * Cardinality(CollSets) * Cardinality(ReqSets)
-Obligations == BaseObl * 2 + Cardinality(Orders) * Cardinality(FlagsOfOrdered)
+Obligations == BaseObl * 2 + Cardinality(Orders) * Cardinality(FlagsOfSlices) + Cardinality(MultObl)
 NumCases    == BaseObl * Cardinality(AllWits) + BaseObl * Cardinality(FlagWits) + Cardinality(OrderedCases)
+               + Cardinality(MultCases)
 NumFlagged  == BaseObl * Cardinality(FlagWits) + Cardinality({x \in OrderedCases : x.p2})
+NumMult     == Cardinality(MultCases)
 \* POSTCONDITION: every combination was visited (and therefore emitted) once
 AllCasesVisited == TLCGet("distinct") = NumCases + Obligations
 
 ----------------------------------------------------------------------------
 Row(x) == [ins |-> SetToSeq(x.ins), coll |-> SetToSeq(x.coll), req |-> SetToSeq(x.req),
            vw |-> SetToSeq(x.vw), bw |-> SetToSeq(x.bw), ord |-> x.ord, p2 |-> x.p2,
+           dup |-> [vw  |-> SetToSeq({<<d[1][1], d[1][2], d[2]>> : d \in x.dup.vw}),
+                    bw  |-> SetToSeq({<<d[1][1], d[1][2], d[1][3], d[2]>> : d \in x.dup.bw}),
+                    req |-> SetToSeq(x.dup.req)],
            accept |-> Accept(x), silent |-> Silent(x), why |-> SetToSeq(Why(x))]
 
 \* Each complete case is printed once, with the verdict, when TLC checks the
@@ -249,5 +340,6 @@ Row(x) == [ins |-> SetToSeq(x.ins), coll |-> SetToSeq(x.coll), req |-> SetToSeq(
 Emit == done => PrintT(<<"ROW", ToJson(Row(c))>>)
 ASSUME PrintT(<<"NUMCASES", NumCases>>)
 ASSUME PrintT(<<"NUMFLAGGED", NumFlagged>>)
+ASSUME PrintT(<<"NUMMULT", NumMult>>)
 ASSUME PrintT(<<"FLAGERAS", ToJson(SetToSeq(FlagEras))>>)
 =============================================================================
